@@ -44,6 +44,8 @@ func corpus(c *ctx) {
 	// the size witnesses (C07-2/3/4)
 	runAdv(c, "tablepos", 25551)
 	runAdv(c, "grp_setlist_move", 25553) // the seeded regression C07-2: block-number word re-coded as MOVEN
+	runAdv(c, "grp_moven_repeat", 1)     // seeded regression C07-8: MOVE run merged across a loop head
+	runAdv(c, "grp_moven_backlabel", 1)  // ... across a backward goto label
 	runAdv(c, "rk_self", 256)            // seeded regression C07-5: method name at constant index 256
 	runAdv(c, "grp_setlist_len", 25551)  // PropagateMV popped the block-number word (fixed: cd20660)
 	runAdv(c, "tfor_vars", 50)           // the seeded regression C07-4: five loop variables, empty body
